@@ -99,6 +99,31 @@ MUTATING = [
 MUT_SETUP = 'MUT = [1, 2, 3, 4, 5, 6, 7, 8]; MAPM = createHashMap; for "_i" from 1 to 20 do { MAPM set [_i, _i] };'
 
 
+# Well-formed structured arguments of the operators that take positions, radii, sizes and ranges inside arrays: the pools
+# above mostly reach the argument validation; these reach the arithmetic behind it. `#` is a number slot.
+TEMPLATES = [
+    ('createvehicle', 'createVehicle ["B_Quadbike_01_F", [#, #, 0], [], #, "NONE"]'),
+    ('createvehicle', 'createVehicle ["B_Soldier_F", [10, 20, 0], [], #, "CAN_COLLIDE"]'),
+    ('createvehicle', '"B_Soldier_F" createVehicle [#, #, #]'),
+    ('createunit', '(createGroup west) createUnit ["B_Soldier_F", [#, #, #], [], #, "FORM"]'),
+    ('createunit', '(createGroup west) createUnit ["B_Soldier_F", [1, 2, 3], [], #, "NONE"]'),
+    ('createvehiclelocal', '"B_Soldier_F" createVehicleLocal [#, #, #]'),
+    ('setpos', 'OBJ setPos [#, #, #]'), ('setposasl', 'OBJ setPosASL [#, #, #]'), ('setvelocity', 'OBJ setVelocity [#, #, #]'), ('setdir', 'OBJ setDir #'),
+    ('domove', 'OBJ doMove [#, #, #]'), ('distance', 'OBJ distance [#, #, #]'), ('distance', '[#, #, #] distance [#, #, #]'), ('distance2d', '[#, #] distance2D [#, #, #]'),
+    ('createmarker', 'createMarker ["mk", [#, #]]'), ('createmarker', 'createMarker ["mk", [#, #, #]]'), ('setmarkerpos', 'createMarker ["mk", [0, 0]]; "mk" setMarkerPos [#, #]'),
+    ('vectoradd', '[#, #, #] vectorAdd [#, #, #]'), ('vectornormalized', 'vectorNormalized [#, #, #]'), ('vectormultiply', '[#, #, #] vectorMultiply #'),
+    ('vectordistance', '[#, #, #] vectorDistance [#, #, #]'), ('vectorcrossproduct', '[#, #, #] vectorCrossProduct [#, #, #]'), ('vectormagnitude', 'vectorMagnitude [#, #, #]'),
+    ('select', 'MIDARR select [#, #]'), ('resize', 'private _a = [1, 2, 3]; _a resize #; _a'), ('deleterange', 'private _a = [1, 2, 3, 4]; _a deleteRange [#, #]; _a'),
+    ('deleteat', 'private _a = [1, 2, 3]; _a deleteAt #'), ('set', 'private _a = [1, 2, 3]; _a set [#, 1]; count _a'), ('selectrandomweighted', '[1, 2, 3] selectRandomWeighted [#, #, #]'),
+    ('random', 'random #'), ('random', '# random #'), ('random', 'random [#, #, #]'), ('mod', '# mod #'), ('%', '# % #'), ('atan2', '# atan2 #'), ('sqrt', 'sqrt #'), ('ln', 'ln #'),
+    ('tofixed', '# toFixed #'), ('tofixed', 'toFixed #; str 1.5'), ('tostring', 'toString [#, #]'), ('substr', '"abcdef" select [#, #]'), ('insert', 'private _a = [1, 2]; _a insert [#, [3]]; _a'),
+    ('for', 'private _n = 0; for "_i" from # to # step # do { _n = _n + 1; if (_n > 50) exitWith {} }; _n'), ('matrixmultiply', '[[#, #], [#, #]] matrixMultiply [[#, #], [#, #]]'),
+    ('linearconversion', 'linearConversion [#, #, #, #, #, true]'), ('pushback', 'private _a = []; _a pushBack #; _a'), ('format', 'format ["%1 %2", #, #]'),
+    ('parsenumber', 'parseNumber str #'), ('round', 'round #'), ('floor', 'floor #'), ('ceil', 'ceil #'), ('count', '{_x > #} count [#, #, #]'),
+]
+SLOTS = ['0', '-0', '0.25', '0.4', '0.49', '0.5', '0.51', '1', '-1', '-0.25', '3', '100', '1e10', '(log -1)', '1e39', '(-1e39)', '2147483648', '1e-45', '16777217']
+
+
 class OpGen:
     def __init__(self, rng, sigs):
         self.r = rng
@@ -130,6 +155,18 @@ class OpGen:
     def cases(self, per_sig, full_product_up_to=3000):
         """-> list of (signature, expression text, setup)"""
         out = [(('X', 'mutation-while-iterating'), t, MUT_SETUP) for t in MUTATING]
+        registered = set(s[1].lower() for s in self.sigs)
+        for name, tpl in TEMPLATES:
+            if name not in registered and name not in ('for', 'substr', '%', 'mod'):
+                continue
+            n = tpl.count('#')
+            fills = [[v] * n for v in SLOTS] + [[self.r.choice(SLOTS) for _ in range(n)] for _ in range(6 if n > 1 else 0)]
+            for fill in fills:
+                t = tpl
+                for v in fill:
+                    t = t.replace('#', v, 1)
+                out.append((('T', name), t, self.setup_for(t)))
+            self.note('template')
         for sig in self.sigs:
             if sig[0] == 'N':
                 out.append((sig, sig[1], ''))
